@@ -348,7 +348,7 @@ func c14(x *mon.Ctx) {
 	// long allow-lists (there is no limit on the number of permitted MR_TD values)
 	{
 		quotes, q := mkQuotes()
-		for _, n := range []int{5, 6, 8, 12, 50, 300} {
+		for _, n := range []int{5, 6, 8, 12, 31, 32, 33, 50, 63, 64, 65, 300, 1000} {
 			for _, at := range []int{-1, 0, 4, n - 1} {
 				var l [][]byte
 				for i := 0; i < n; i++ {
@@ -360,6 +360,28 @@ func c14(x *mon.Ctx) {
 					l = append(l, v)
 				}
 				add("any-mr-td", fmt.Sprintf("len%d/match@%d", n, at), ref.Policy{AnyMrTd: l}, quotes, nil)
+			}
+			// a listed sibling that shares the matching value's first 8 / first 40 bytes, before or after it: both stay permitted
+			for _, keep := range []int{8, 40} {
+				for _, first := range []bool{true, false} {
+					var l [][]byte
+					for i := 0; i < n; i++ {
+						v := make([]byte, 48)
+						r.Read(v)
+						l = append(l, v)
+					}
+					sib := append([]byte{}, q.MrTd...)
+					for j := keep; j < 48; j++ {
+						sib[j] ^= 0x3c
+					}
+					a, b := n/3, n-1
+					if first {
+						l[a], l[b] = append([]byte{}, q.MrTd...), sib
+					} else {
+						l[a], l[b] = sib, append([]byte{}, q.MrTd...)
+					}
+					add("any-mr-td", fmt.Sprintf("len%d/match-%v-sibling-sharing-%d-bytes", n, map[bool]string{true: "before", false: "after"}[first], keep), ref.Policy{AnyMrTd: l}, quotes, nil)
+				}
 			}
 			bad := make([][]byte, n)
 			for i := range bad {
